@@ -8,7 +8,8 @@ SPEC = os.path.join(common.VERIF, "spec", "Core")
 VARIANTS = {0: "given order, main read and evaluated", 1: "definitions in reverse order (callers first)", 2: "main wrapped in a function defined before everything it calls",
             3: "one text, Code.Compile, then evaluated", 4: "every form through (eval (quote form))", 5: "(load file), callers first",
             6: "same code object, 2nd evaluation", 7: "same code object, 3rd evaluation", 8: "same code object, 4th evaluation",
-            9: "every definition evaluated twice", 10: "a function redefined to something else and back"}
+            9: "every definition evaluated twice", 10: "a function redefined to something else and back",
+            11: "every function first a stub, main evaluated once against the stubs, then the real definitions callers first, same code object of main"}
 
 
 def run(tier, seed):
